@@ -17,6 +17,9 @@ def main():
     ap.add_argument('--only', default=None, help='run only the named obligation family (debugging)')
     args = ap.parse_args()
     common.setup_symbolic_env()
+    if os.environ.get('PVF_TRACE_AFTER'):
+        import faulthandler
+        faulthandler.dump_traceback_later(int(os.environ['PVF_TRACE_AFTER']), repeat=True)
     # address-space cap per process: a runaway solver must die as "unknown", not thrash
     try:
         lim = 24 * 2**30
